@@ -214,3 +214,35 @@ Proof.
   - intro H. right. apply read_core, H.
   - intros _. left. split; reflexivity.
 Qed.
+
+(* read-your-writes for an uncontended writer: a version that is recoverable in the map and
+   whose sequence number exceeds that of every other version in the map is the one a read returns *)
+Lemma newest_recoverable_is_best_ok m v :
+  In v (recoverable_versions m) ->
+  (forall w, In w (versions m) -> w <> v -> seq w < seq v) ->
+  best_recoverable_version m = Some v.
+Proof.
+  intros Hv Hnew.
+  destruct (best_recoverable_version m) as [b|] eqn:B.
+  - destruct (best_is_max_recoverable_ok m b B) as [Hb Hmax].
+    specialize (Hmax v Hv). apply version_leb_spec in Hmax.
+    destruct (version_eqb b v) eqn:E; [apply version_eqb_eq in E; subst; reflexivity|].
+    assert (Hne : b <> v) by (intro X; apply version_eqb_eq in X; congruence).
+    assert (Hbv : In b (versions m)).
+    { apply recoverable_In in Hb. destruct Hb as [Hex _]. apply versions_In. exact Hex. }
+    specialize (Hnew b Hbv Hne). lia.
+  - apply best_none_iff in B. rewrite B in Hv. destruct Hv.
+Qed.
+
+(* a publish that used new_seqnum of its survey and whose shares are (at least k of them) in a later
+   map, with nothing else newer in that map, is what that later read returns *)
+Lemma publish_then_read_ok m_survey m_read v :
+  seq v = new_seqnum m_survey ->
+  In v (recoverable_versions m_read) ->
+  (forall w, In w (versions m_read) -> w <> v -> In w (versions m_survey)) ->
+  best_recoverable_version m_read = Some v.
+Proof.
+  intros Hs Hv Hold. apply newest_recoverable_is_best_ok; [exact Hv|].
+  intros w Hw Hne. specialize (Hold w Hw Hne). apply versions_In in Hold. destruct Hold as [s [Hin Hvs]].
+  rewrite Hs, <- Hvs. apply new_seqnum_gt_all_seen_ok, Hin.
+Qed.
